@@ -4,7 +4,8 @@ from props import COMMON_TRUST
 def pool_nontrivial(tok, res):
     if tok[0] in ("offer", "user", "expire", "end", "release", "child", "mxclose", "mxaccept", "mxconn",
                   "newproxy", "closeproxy", "vlput", "vlaccept", "vpconn", "vprelease", "vpclose",
-                  "gpconn", "gpaccept", "gpclose", "squsers", "sqoffer", "sqping", "sqresume", "sqend"):
+                  "gpconn", "gpaccept", "gpclose", "squsers", "sqoffer", "sqping", "sqresume", "sqend",
+                  "peoffer", "petake", "pehold", "peend", "perelease", "pecensus", "perace"):
         return True
     if tok[0] in ("login", "sqlogin"):
         return res.startswith("ok:")
@@ -12,6 +13,8 @@ def pool_nontrivial(tok, res):
 
 
 def pool_class(r):
+    if r.startswith("done:w=") or (r.startswith("w=") and ";" not in r):
+        return ("done:" if r.startswith("done:") else "pcensus:") + ("clean" if r.endswith("/0") else "open")
     if r.startswith("S:") and r[2:3].isdigit():
         k = r[2:].split(";")[0].split(":")[0]
         return "parked:" + ("0" if k == "0" else "n") + (";resumed" if ";r=" in r else "")
@@ -52,7 +55,7 @@ def pool_class(r):
 
 PROP = {
         "level": "proof",
-        "gens": [],
+        "gens": ["PoolFacts"],
         "theorems": [
             "Frp.Pool.inv_init", "Frp.Pool.inv_step", "Frp.Pool.inv_reach", "Frp.C11.advance_eq_spec",
             "Frp.C11.advance_le", "Frp.C11.cap_eq", "Frp.C11.newControl_panics_iff",
@@ -101,6 +104,23 @@ PROP = {
             "Frp.C11.plainSend_strand_witness",
             "Frp.C11.plainSend_strand_witness_100",
             "Frp.C11.releasedOnEnd_plainSend_false",
+            "Frp.C11.End.inv_step",
+            "Frp.C11.End.inv_reach",
+            "Frp.C11.End.closed_and_empty_at_end",
+            "Frp.C11.End.none_parked_at_end",
+            "Frp.C11.End.late_offer_closed",
+            "Frp.C11.End.source_program_drains",
+            "Frp.C11.End.source_none_parked",
+            "Frp.C11.End.earlyDrain_not_willDrain",
+            "Frp.C11.End.earlyDrain_strands_witness",
+            "Frp.C11.End.finished_buffer_stable",
+            "Frp.C11.End.earlyDrain_plus_range_ok",
+            "Frp.C11.End.other_orders_rejected",
+            "Frp.C11.End.drain_rounds",
+            "Frp.C11.End.worker_finishes",
+            "Frp.C11.End.rt_step",
+            "Frp.C11.End.rt_reach",
+            "Frp.C11.End.source_worker_finishes",
         ],
         "engines": [
             {"name": "pool", "quick_n": 1180, "thorough_n": 5000, "thorough_seeds": 4,
@@ -129,7 +149,14 @@ PROP = {
                 "Dispatcher.Send — before the wait on an empty pool, or holding a pooled connection at the replacement "
                 "request — counted off the goroutine dump), the client reads again (all drained, every ReqWorkConn "
                 "arrives) or the session ends (reads fail with the writes still blocked / client gone) and ALL its user "
-                "connections must be closed or bridged to a started work connection, every other work connection closed. "
+                "connections must be closed or bridged to a started work connection, every other work connection closed; "
+                "the END of the pool on a real server.Control the harness owns (NewControl + Start on a pipe; the harness "
+                "is what Service is for it: RegisterWorkConn / GetWorkConn / RegisterProxy, closes what registration "
+                "refuses): connections offered up to and beyond the capacity, some taken, the session ended free-running "
+                "or with the worker parked at ctl.mu.Lock() (a CloseProxy of the session held inside its critical "
+                "section at the gate close.deleted) while further connections are offered / taken, offers after the end, "
+                "and a census of every accepted connection (all closed or handed out); sessions ended under a storm of "
+                "offers from 1-12 goroutines, 30 rounds each (no gate, no lock held: the plain race). "
                 "Non-trivial = every offer, user, expiry, census, child, proxy, muxer, listener, visitor, group, "
                 "send-path op and successful login; distinct = distinct (op line, result)",
         "trusted": COMMON_TRUST + [
@@ -141,6 +168,13 @@ PROP = {
             "stalled); the number of handlers inside msg.(*Dispatcher).Send and whether every handler is at rest are read "
             "from runtime.Stack (frame names handleUserTCPConnection / Dispatcher.Send / Control.Start.func1)",
             "verifhook gates worker.dispDone / worker.drained (tag verif, /repo 75a0848) perturb timing only",
+            "model Frp/Model/PoolEnd.lean (the worker's pool steps as a program, RegisterWorkConn, GetWorkConn, other "
+            "holders of ctl.mu) written by hand; the PROGRAM and the registration shape are regenerated from "
+            "server/control.go / service.go by translate/gen_poolfacts.go (statement shapes it does not know become "
+            "`unknown` and fail the obligation); pe ops: the work connections are harness objects that record Close; "
+            "ctl.mu is held through the session's own CloseProxy parked at the existing gate close.deleted (in frps "
+            "itself CloseProxy runs in the read loop, which has ended by then: the hold only widens a window that "
+            "exists anyway, cf. perace); `worker waits at the mutex` is read from runtime.Stack",
             "yamux semantics used by the engine: frames of one session are processed in order (the round trip after "
             "`kill`); for a pooled connection the client has closed BOTH outcomes of the StartWorkConn write are accepted "
             "(error: next round; no error: bridged, Join ends, user closed) and told apart by the number of pooled "
@@ -166,6 +200,9 @@ PROP = {
             "unchanged tree and is not judged; what is proved and checked is the release at session end.  The read "
             "loop's own Send (Pong, NewProxyResp) parking on a full queue is dispatcher starvation (C14) and is neither "
             "generated nor compared (skip)",
+            "end of the pool: a connection received by GetWorkConn counts as handed to a user connection (what that "
+            "handler does with it is the Pool model's); after the session's proxies are closed nobody calls "
+            "GetWorkConn, so a connection still buffered in the closed channel stays there (finished_buffer_stable)",
             "advance requests: `Start()`'s burst is modelled as sent at once (it runs in a goroutine); the accounting "
             "reqs = advance + user-driven is exact while the dispatcher lives",
         ],
@@ -178,6 +215,7 @@ META = {
                      "clock), of the vhost hand-off, of the visitor listener with its accept loop, of the group hand-off and of "
                      "the control-message send path with parked senders; "
                      "a 10-clause invariant proved inductive over all 18 labels plus a request-accounting invariant, "
+                     "the teardown of the pool as a program regenerated from the source with an invariant for all interleavings, "
                      "inductive invariants for the two accept-path models, consequences for every reachable state; kernel-checked witness schedules for the three defects of the pinned "
                      "tree and full theorems for the repaired model behind the switch Pool.current; differential "
                      "correspondence with a real frps driven by a scripted client, gates in the teardown, a sacrificial "
@@ -196,6 +234,15 @@ META = {
                 "has ended (each connection accepted or closed) and after Close the loop returns every queued connection "
                 "before it ends; when the last member of a group has left, every user connection was delivered or closed; "
                 "the control-message send path (Dispatcher.Send / sendLoop, 100-slot queue, client that stops reading): "
+                "the END of the pool as a small-step system over RegisterWorkConn / GetWorkConn / other holders of "
+                "ctl.mu / the steps of worker() taken as a PROGRAM (each round of a drain loop is a step): for every program "
+                "with a drain after the close (decidable condition willDrain) and every interleaving, once the worker has "
+                "finished the channel is closed and empty, every connection ever offered was handed to a user connection "
+                "or closed, and every later offer is closed; a program that runs through (lock discipline, one close, range "
+                "only on the closed channel) is never stuck: from every reachable state the worker's own steps reach the end; the program regenerated from server/control.go meets the "
+                "condition (lock, close, range-drain, unlock; send in select/default with a recover that reports an error "
+                "on which the caller closes), whereas for `non-blocking drain, lock, close, unlock` a kernel-checked "
+                "schedule ends with a connection parked in the closed channel for ever; "
                 "Send returns io.EOF only after the session ended, a handler is blocked in Send exactly when the queue is "
                 "full and the session lives, and once the session has ended the doneCh arm of every parked handler is "
                 "ready and stays ready under every other action (for all interleavings of senders, send loop, write, "
